@@ -3,7 +3,7 @@
 //! (signed once, cached under <build>/cases/c01_assets/<name>.bin) and an operation:
 //!   op "prepare": (re)sign; out: length, signed hard binding (exclusions / boxes / bmff exclusions), handler box map,
 //!                 report and report-JSON digest of the untouched read.
-//!   op "mut":     apply mutation m = {k: set|flip|insert|delete|append|truncate, pos, val|bit|hex|n} to the signed
+//!   op "mut":     apply mutation m = {k: set|flip|insert|delete|splice|append|truncate, pos, val|bit|hex|n} to the signed
 //!                 bytes and read back through Reader; out: state, codes, digest of the stable report JSON;
 //!                 with "direct": also run the *signed* assertion's verifier directly on the mutated bytes
 //!                 (DataHash/BoxHash/BmffHash::verify_stream_hash) and, with "map", return the handler box map of
@@ -186,6 +186,13 @@ pub fn mutate(base: &[u8], m: &Value) -> Vec<u8> {
             let p = pos.min(v.len());
             let e = (p + n).min(v.len());
             v.drain(p..e);
+        }
+        "splice" => {
+            // replace n bytes at pos by the given bytes
+            let n = m["n"].as_u64().unwrap_or(0) as usize;
+            let p = pos.min(v.len());
+            let e = (p + n).min(v.len());
+            v.splice(p..e, hexd(&m["hex"]));
         }
         "append" => v.extend_from_slice(&hexd(&m["hex"])),
         "truncate" => {
